@@ -39,17 +39,13 @@ func oracleHashes() Oracle {
 }
 
 func c02Alpha(reads bool) Alpha {
-	return Alpha{Writes: true, Save: true, Rollback: true, Reopen: stdReopen, DelTo: true, LVFO: true, Import: true, Reads: reads}
+	return Alpha{Writes: true, RemoveAbsent: true, Save: true, Rollback: true, Reopen: stdReopen, DelTo: true, LVFO: true, Import: true, Reads: reads}
 }
 
 func c02Specs(tier string) []*Spec {
 	var specs []*Spec
 	add := func(name string, cfg Cfg, keys, vals [][]byte, depth, maint, reads int, a Alpha) {
-		wt := 1
-		if depth >= 6 {
-			wt = 12
-		}
-		specs = append(specs, &Spec{Weight: wt, ID: "C02", Name: name, Cfg: cfg, Keys: keys, Vals: vals, MaxDepth: depth, MaxMaint: maint, MaxReads: reads,
+		specs = append(specs, &Spec{ID: "C02", Name: name, Cfg: cfg, Keys: keys, Vals: vals, MaxDepth: depth, MaxMaint: maint, MaxReads: reads,
 			Alphabet: a.Ops, Oracles: []Oracle{oracleHashes()}})
 	}
 	k3 := bs("a", "ab", "b")
